@@ -107,7 +107,7 @@ def handle : List String → String
           let e := match run 4000 prog with
             | some rs => "reads:" ++ hexList rs
             | none => "fail"
-          l ++ " " ++ e
+          l ++ " " ++ e ++ " " ++ (if Frag.handled prog then "h1" else "h0")
       | _ => "bad-op"
   | "pref" :: ck :: first :: segs =>
       match stringOfHex ck, stringOfHex first, parseSegs segs with
